@@ -115,9 +115,9 @@ pub fn run(ctx: &Ctx, out: &mut Out) {
             out.case(req.to_string(), expected.to_string(), stored.len() >= 2, &label);
             // 4. the property's sentence on the implementation: definite guidance excludes no stored answer
             if let Some(Solution::Ambig(Guidance::Definite(g))) = &real {
-                let pat = enc_subst(&g.value);
+                let pat = erase_const_types(&enc_subst(&g.value));
                 for (s, _, _) in &stored {
-                    let tgt = enc_subst(&s.value.subst);
+                    let tgt = erase_const_types(&enc_subst(&s.value.subst));
                     if !instance_of(&pat, &tgt) {
                         let cls = if is_linear(&pat) { "definite_guidance_excludes_stored_answer" } else { "slg_guidance_nonlinear" };
                         out.fail(
